@@ -50,18 +50,21 @@ def template(t):
         from nucs.examples.magic_sequence.magic_sequence_problem import MagicSequenceProblem
         return MagicSequenceProblem(4)
     if t == 3:
-        p = Problem([(0, 2), (-1, 2), (0, 3)], [0, 1, 2, 0], [0, 0, 0, 1])
+        # 4 shared domains (the last one instantiated from the start), 5 variables (variable 3 is a view of domain 0)
+        p = Problem([(0, 2), (-1, 2), (0, 3), (1, 1)], [0, 1, 2, 0, 3], [0, 0, 0, 1, 0])
         p.add_propagator(([0, 1, 2], pp.ALG_ALLDIFFERENT, []))
         p.add_propagator(([3, 2], pp.ALG_AFFINE_LEQ, [1, -1, 0]))
         p.add_propagator(([0, 1], pp.ALG_LEXICOGRAPHIC_LEQ, []))
         p.add_propagator(([1, 2, 3], pp.ALG_MAX_EQ, []))
+        p.add_propagator(([4, 2], pp.ALG_AFFINE_LEQ, [1, -1, 0]))
         return p
     if t == 4:   # a SIBLING of template 3: the same algorithms, arities and domains, other parameters (signs, constants) -
-        p = Problem([(0, 2), (-1, 2), (0, 3)], [0, 1, 2, 0], [0, 0, 0, 1])   # anything cached per "shape" shows here
+        p = Problem([(0, 2), (-1, 2), (0, 3), (1, 1)], [0, 1, 2, 0, 3], [0, 0, 0, 1, 0])   # anything cached per "shape" shows here
         p.add_propagator(([0, 1, 2], pp.ALG_ALLDIFFERENT, []))
         p.add_propagator(([3, 2], pp.ALG_AFFINE_LEQ, [-1, 1, 0]))
         p.add_propagator(([1, 0], pp.ALG_LEXICOGRAPHIC_LEQ, []))
         p.add_propagator(([1, 2, 3], pp.ALG_MAX_EQ, []))
+        p.add_propagator(([4, 2], pp.ALG_AFFINE_LEQ, [-1, 1, 0]))
         return p
     raise ValueError(t)
 
@@ -105,19 +108,36 @@ def register(k):
         ca.register_consistency_algorithm(bound_consistency_algorithm)
 
 
+SHARED = {}     # (template, configuration) -> the keyword arguments, built ONCE per process and handed to every solver
+
+
+def shared_config(t, c, prob):
+    """The caller's own objects (the list of decision domains, the cost tables) are reused from one solver to the next,
+    as a user would: a constructor that modifies them changes the configuration of every later solver."""
+    if (t, c) not in SHARED:
+        kw = config(c, prob)
+        if c in (2, 3):
+            kw["decision_domains"] = list(range(len(prob.shr_domains_lst)))      # the default, spelled out
+        SHARED[(t, c)] = (kw, json.dumps(kw, sort_keys=True, default=str))
+    return SHARED[(t, c)]
+
+
 def execute(ops):
     probs, solvers, gens = [], [], []
     obs = []
     for op, a, b in ops:
-        o = {"sols": [], "ended": False, "meaning_ok": True, "raised": "", "stats": []}
+        o = {"sols": [], "ended": False, "meaning_ok": True, "args_ok": True, "raised": "", "stats": []}
         try:
             if op == "newproblem":
                 probs.append(template(a))
+                probs[-1].verif_template = a
             elif op == "newsolver":
                 prob = probs[a - 1]
                 before = meaning(prob)
-                s = BacktrackSolver(prob, log_level="ERROR", **config(b, prob))
+                kw, pristine = shared_config(prob.verif_template, b, prob)
+                s = BacktrackSolver(prob, log_level="ERROR", **kw)
                 o["meaning_ok"] = meaning(prob) == before
+                o["args_ok"] = json.dumps(kw, sort_keys=True, default=str) == pristine
                 solvers.append(s)
                 gens.append(s.solve())
             elif op == "step":
